@@ -12,7 +12,7 @@ RULE = (
     "seed s0, presentation seed, second schedule seed s1). The job set is "
     "learned once as enumerated (s0) and once in a drawn presentation (jobs "
     "permuted, events inside each job permuted, fresh event/job ids of "
-    "three styles, timestamps shifted/reversed, one or two jobs repeated as "
+    "four styles (one of them unique inside a job only: 1..n in every job), timestamps shifted/reversed, one or two jobs repeated as "
     "further instances or as the very same records again; s1; two cases in "
     "five additionally go through the file routes of pv2puml - one JSON "
     "array per job, or one JSON object per event with all files interleaved "
